@@ -2,7 +2,7 @@ from dataclasses import dataclass
 
 from mypy.nodes import ArgKind, CallExpr, NameExpr
 
-from refurb.checks.common import get_mypy_type, is_same_type, stringify
+from refurb.checks.common import get_mypy_type, is_same_type, stringify, stringify_operand
 from refurb.error import Error
 
 
@@ -71,7 +71,7 @@ def check(node: CallExpr, errors: list[Error]) -> None:
             if not is_same_type(get_mypy_type(arg), *expected_types):
                 return
 
-            expr = stringify(arg)
+            expr = stringify_operand(arg, ".") if suffix else stringify(arg)
 
             msg = f"Replace `{name}({stringify(arg)})` with `{expr}{suffix}`"
 
